@@ -460,7 +460,14 @@ int TempResultToInt(TempResult* pResult) {
 Boolean MultiCharToInt(TempResult* pResult, unsigned MaxLen) {
     if ((pResult->Typ == TempString) && (pResult->Contents.str.len <= MaxLen)
         && (pResult->Flags & eSymbolFlag_StringSingleQuoted)) {
-        TempResultToInt(pResult);
+        /* not via NonZString2Int(): MaxLen may be up to 8, it converts at most 4 */
+        LargeWord Result = 0;
+        size_t    z;
+
+        for (z = 0; z < pResult->Contents.str.len; z++) {
+            Result = (Result << 8) | CharTransTable[(Byte)pResult->Contents.str.p_str[z]];
+        }
+        as_tempres_set_int(pResult, (LargeInt)Result);
         return True;
     }
     return False;
